@@ -300,6 +300,35 @@ static string snap_opt(cfg_opt_t *opt, int depth)
 	string r = "{\"n\":" + jstr(cfg_opt_name(opt)) + ",\"t\":" + jnum(opt->type) + ",\"f\":" + jnum(opt->flags) +
 		   ",\"c\":" + jstr(cfg_opt_getcomment(opt)) + ",\"v\":[";
 	unsigned int n = cfg_opt_size(opt);
+	bool simple = opt->simple_value.ptr && opt->type != CFGT_SEC;
+	if (simple) {
+		// the value lives in the application's variable; the getters must return exactly that
+		bool ok = n == 0;
+		switch (opt->type) {
+		case CFGT_INT:
+			ok = ok && cfg_opt_getnint(opt, 0) == *opt->simple_value.number;
+			break;
+		case CFGT_FLOAT: {
+			double a = cfg_opt_getnfloat(opt, 0), b = *opt->simple_value.fpnumber;
+			ok = ok && !memcmp(&a, &b, sizeof a);
+			break;
+		}
+		case CFGT_BOOL:
+			ok = ok && cfg_opt_getnbool(opt, 0) == *opt->simple_value.boolean;
+			break;
+		case CFGT_STR:
+			ok = ok && cfg_opt_getnstr(opt, 0) == *opt->simple_value.string;
+			break;
+		default:
+			break;
+		}
+		if (!ok) {
+			fprintf(stderr, "VT-ACCESSOR-MISMATCH: simple option '%s': getter differs from the application's variable (size %u)\n",
+				opt->name, n);
+			abort();
+		}
+		n = 1;
+	}
 	for (unsigned int i = 0; i < n; i++) {
 		if (i)
 			r += ",";
@@ -336,7 +365,7 @@ static string snap_opt(cfg_opt_t *opt, int depth)
 			r += "null";
 		}
 	}
-	r += "]}";
+	r += simple ? "],\"simple\":1}" : "]}";
 	return r;
 }
 
@@ -472,6 +501,58 @@ static char *sstr(long sid, const Arg &a)
 	return p;
 }
 
+// "simple" options (CFG_SIMPLE_*): the value lives in a variable of the application.  Flag bit 1<<24 in a schema
+// line asks for one; the variable is initialised from the line's default, strings are owned by the "application"
+// (this executor) as the documentation prescribes: malloc()'ed or NULL, released by the application.
+#define VT_SIMPLE_FLAG (1 << 24)
+struct SimpleSlot {
+	cfg_type_t type;
+	void *var; // 8 bytes of storage
+	Arg def;
+};
+static std::map<long, vector<SimpleSlot>> g_simple;
+static void simple_init(SimpleSlot &sl)
+{
+	switch (sl.type) {
+	case CFGT_INT:
+		*(long *)sl.var = strtol(sl.def.s.c_str(), NULL, 0);
+		break;
+	case CFGT_FLOAT:
+		*(double *)sl.var = strtod(sl.def.s.c_str(), NULL);
+		break;
+	case CFGT_BOOL:
+		*(cfg_bool_t *)sl.var = (cfg_bool_t)strtol(sl.def.s.c_str(), NULL, 0);
+		break;
+	case CFGT_STR:
+		*(char **)sl.var = sl.def.null ? NULL : vt_strdup(sl.def.s.c_str(), "application", 0, 0);
+		break;
+	default:
+		break;
+	}
+}
+static void simple_release(long sid, bool reinit)
+{
+	for (auto &sl : g_simple[sid]) {
+		if (sl.type == CFGT_STR) {
+			vt_free(*(char **)sl.var);
+			*(char **)sl.var = NULL;
+		}
+		if (reinit)
+			simple_init(sl);
+	}
+	if (!reinit)
+		g_simple[sid].clear();
+}
+static long simple_live_strings()
+{
+	long n = 0;
+	for (auto &kv : g_simple)
+		for (auto &sl : kv.second)
+			if (sl.type == CFGT_STR && *(char **)sl.var)
+				n++;
+	return n;
+}
+
 static vector<vector<string>> g_lines; // tokenised script
 static size_t g_pc = 0;
 
@@ -488,11 +569,27 @@ static cfg_opt_t *build_opts(long sid)
 		memset(&o, 0, sizeof o);
 		if (t[0] == "o" && t.size() >= 6) {
 			char ty = t[1][0];
-			o.flags = (cfg_flag_t)strtol(t[2].c_str(), NULL, 0);
+			long rawflags = strtol(t[2].c_str(), NULL, 0);
+			bool simple = rawflags & VT_SIMPLE_FLAG;
+			o.flags = (cfg_flag_t)(rawflags & ~VT_SIMPLE_FLAG);
 			o.name = sstr(sid, decode(t[3]));
 			Arg def = decode(t[4]);
 			long cb = strtol(t[5].c_str(), NULL, 0);
 			bool list = o.flags & CFGF_LIST;
+			if (simple && !list && strchr("ifbs", ty)) {
+				SimpleSlot sl;
+				sl.type = ty == 'i' ? CFGT_INT : ty == 'f' ? CFGT_FLOAT : ty == 'b' ? CFGT_BOOL : CFGT_STR;
+				sl.var = sblock(sid, sizeof(cfg_value_t));
+				sl.def = def;
+				simple_init(sl);
+				g_simple[sid].push_back(sl);
+				o.type = sl.type;
+				o.simple_value.ptr = (void **)sl.var;
+				if (cb & 8)
+					o.pf = print_cb;
+				v.push_back(o);
+				continue;
+			}
 			switch (ty) {
 			case 'i':
 				o.type = CFGT_INT;
@@ -705,10 +802,12 @@ static void run_script(const string &script)
 		}
 		if (c == "schema") {
 			long sid = N(1);
+			simple_release(sid, false);
 			g_schema[sid] = build_opts(sid);
 			api = false;
 		} else if (c == "poison") {
 			long sid = N(1);
+			simple_release(sid, false);
 			for (auto &b : g_schema_sized[sid])
 				memset(b.first, 0xA5, b.second);
 			for (void *b : g_schema_blocks[sid])
@@ -754,7 +853,7 @@ static void run_script(const string &script)
 			vt_fail_site[0] = 0;
 			api = false;
 		} else if (c == "allocstat") {
-			o += ",\"live\":" + jnum(vt_live_blocks) + ",\"streams\":" + jnum(vt_live_streams) + ",\"req\":" + jnum(vt_requests) +
+			o += ",\"live\":" + jnum(vt_live_blocks - simple_live_strings()) + ",\"streams\":" + jnum(vt_live_streams) + ",\"req\":" + jnum(vt_requests) +
 			     ",\"failsite\":\"" + string(vt_fail_site) + "\",\"ptr_live\":" + jnum((long long)g_ptr_live.size()) +
 			     ",\"ptr_made\":" + jnum(g_ptr_made) + ",\"ptr_released\":" + jnum(g_ptr_released) + ",\"double_release\":" +
 			     jnum(g_double_release) + ",\"fds\":" + jnum(count_fds()) + ",\"incptr\":" + jnum(cfg_include_stack_ptr);
@@ -782,6 +881,8 @@ static void run_script(const string &script)
 			g_cbseq = g_cbfail = 0;
 			g_last_errno = 0;
 			vt_fail_at = 0;
+			for (auto &kv : g_simple)
+				simple_release(kv.first, true);
 			api = false;
 		} else if (c == "init") {
 			long h = N(1), sid = N(2);
